@@ -275,6 +275,7 @@ def reconfigure(rng, sp, d, ids, mc_max, keep_mc=0.4):
         conf["nodes"] = nodes_conf
     if conf:
         via = rng.choice(["dict", "dict", "yaml", "json"])
+        sp.setdefault("history", []).append(["config_from_" + via, conf, "attribute max_concurrency=%s" % sp["mc"] if "max_concurrency" not in conf else None])
         if via == "dict":
             d.config_from_dict(conf)
         else:
@@ -363,6 +364,31 @@ def job_sched(j):
         ids = S.node_ids(sp)
         if sp.get("nest"):
             col.counters["shapes_with_a_block_written_as_inner_dag"] += 1
+            if located and rng.random() < 0.3:
+                # the inner DAG object is RE-CONFIGURED and then nested once more, in a second outer DAG: the second outer DAG
+                # schedules the inner nodes as they are configured now (the first one was described before the reload)
+                import copy
+
+                a0, b0 = sp["nest"]["first"], sp["nest"]["last"]
+                uses_ = Counter(nd["fn"] for nd in sp["nodes"])
+                all_tags_ = {fs.get("tag") for fs in sp["fns"].values()}
+                # (the reload addresses the inner node by its id: not usable when some tag is spelled like that id - a tag wins)
+                cand = [i for i in range(a0, b0 + 1) if uses_[sp["nodes"][i]["fn"]] == 1 and ids[i].split(".", 1)[1] not in all_tags_]
+                if cand:
+                    i0 = rng.choice(cand)
+                    sp2 = copy.deepcopy(sp)
+                    newv = {"is_sequential": not sp["fns"][sp["nodes"][i0]["fn"]].get("is_sequential", False), "priority": rng.choice([0, 3, 8])}
+                    sp2["fns"][sp2["nodes"][i0]["fn"]].update(newv)
+                    try:
+                        _env["nin"].config_from_dict({"nodes": {ids[i0].split(".", 1)[1]: newv}})
+                        d, _env, plain = S.build_tawazi(sp2, plain=plain0, inner_dag=_env["nin"])
+                        sp = sp2
+                        sp.setdefault("history", []).append(["inner_dag_reconfigured_and_nested_again", ids[i0], newv])
+                        col.counters["inner_dag_reconfigured_and_nested_again"] += 1
+                    except BaseException as e:  # noqa: BLE001
+                        col.violation("C20", "reconfigured_inner_dag_could_not_be_nested_again", dict(exc=repr(e)[:300], source=S.render(sp)),
+                                      {"kind": "rerun_job", "job": dict(j)})
+                        continue
         if set(ids) - set(d.exec_nodes):
             col.inconclusive.append("predicted node ids not found in DAG: %s" % sorted(set(ids) - set(d.exec_nodes))[:3])
             continue
@@ -393,6 +419,7 @@ def job_sched(j):
                     col.counters["composed_dag_misses_nodes"] += 1
                 else:
                     d, sp = dc, sp2
+                    sp.setdefault("history", []).append(["composed", S.jsonable(kwc)])
                     col.counters["composed_dags_scheduled"] += 1
         reconf_at = None
         if rng.random() < j.get("reconfig", 0.45):
